@@ -38,6 +38,17 @@ def run(chk):
         wait_internal(chk, prog, names, m)
     writers(chk, prog, names, cg, fa)
     chk.floor("wait-internal-paths", 6)
+    # the one writer of the frame clock outside the bus methods is the SZX Z80R chunk: the value it stores is the file's
+    # 32-bit clock (the chunk-arm rule of C14), otherwise "frames x length + offset" is off by what was dropped
+    from . import c14
+    from . import loaders as ld
+    from zx.report import FilteredCheck
+    chk.rule("T-TABLE (shared with C14)", "SZX Z80R: the frame clock restored is the 32-bit dwCyclesStart of the file")
+    ln = ld.LoaderNames(prog)
+    fc = FilteredCheck(chk, lambda k: k.endswith("/Z80R/cycles"), "c14")
+    for m in names.machine_variants():
+        c14.szx(fc, prog, ln, m)
+    chk.check(fc.forwarded >= 2, "T-TABLE/szx::load/Z80R/cycles/judged", "the restored frame clock was judged on %d paths only" % fc.forwarded)
     return chk.finish(EXPL)
 
 
